@@ -93,6 +93,14 @@ def domain(tier, seed):
         out.append(gen.junk_selfies(rnd, rnd.choice([1, 2, 3, 5, 9, 20])))
     for _ in range(300 if tier == 'quick' else 3000):
         out.append(gen.rand_selfies(rnd, rnd.choice([50, 300, 1500])))
+    # atoms that cannot bond at all (capacity 0 through explicit H / charge) in every position of the derivation:
+    # root, chain, first symbol of a branch, after a ring symbol, behind a dot, as branch/ring index
+    cap0 = ['[CH4]', '[=CH4]', '[NH3]', '[OH2]', '[FH1]', '[BH3]', '[OH1-1]', '[13CH4]', '[#NH3]', '[H]', '[=H]', '[ClH1]']
+    shapes = ['{a}', '[C]{a}', '{a}[C]', '[C][Branch1][C]{a}', '[C][Branch1][Ring1]{a}[C][O]', '[C][=Branch1][C]{a}[C]',
+              '[C][Ring1][C]{a}', '[C].{a}', '{a}.{a}', '[C][Branch1][C]{a}[Ring1][C]', '[C][Branch1]{a}[C][C]',
+              '[C][C][Ring1]{a}', '[C][Branch2][C]{a}{a}[C]', '{a}[Branch1][C][C][C]', '{a}[Ring1][C]',
+              '[C][Branch1][C][Branch1][C]{a}[C]', '[C][Branch1][Ring2]{a}{a}{a}[O]', '[O][=C]{a}[=C]']
+    out += [sh.replace('{a}', a) for a in cap0 for sh in shapes]
     # long / nested (bounded well below the recursion-limit finding, which is replayed separately)
     k = 1 if tier == 'quick' else 4
     out.append('[C]' * (5000 * k))
